@@ -4,6 +4,7 @@ import (
 	"context"
 	"fmt"
 	"sort"
+	"sync"
 	"testing"
 	"testing/synctest"
 	"time"
@@ -52,6 +53,8 @@ type rig struct {
 	ttlPast bool  // realise "expired" with a TTL already in the past at insertion
 	history bool  // precede every metric by an older one of the opposite health
 	opts    rigOpts
+	buf     []evalRec
+	nSeen   int
 	psCancel context.CancelFunc
 }
 
@@ -102,6 +105,7 @@ func newRig(t *testing.T, o rigOpts) *rig {
 			c.ReplicationFactorMax = o.defMax
 			c.StateSyncInterval = 100000 * time.Hour
 			c.PinRecoverInterval = 100000 * time.Hour
+			c.DisableRepinning = false // the exclusion list only exists on re-pinning paths
 		},
 	}
 	if o.alloc == "ascend" {
@@ -143,6 +147,7 @@ func newRig(t *testing.T, o rigOpts) *rig {
 }
 
 func (r *rig) stop() {
+	r.flush()
 	r.p.Stop()
 	if r.psCancel != nil {
 		r.psCancel()
@@ -278,6 +283,7 @@ func (r *rig) existingPin(c Case) *api.Pin {
 	if c.Entry == "shortcut" || c.Entry == "remove" || c.Entry == "alert" {
 		// the stored pin carries exactly the options under test
 		mn, mx := c.eff()
+		// (user allocations are not persisted by the pinset: api.Pin.ProtoMarshal drops them)
 		opts = api.PinOptions{Name: "same", ReplicationFactorMin: mn, ReplicationFactorMax: mx, UserAllocations: r.peers(c.Prio)}
 	} else {
 		// a consistent earlier pin: factors equal to its number of holders
@@ -380,7 +386,11 @@ func (r *rig) run(c Case) Obs {
 		r.cons.Trusted = func(p peer.ID) bool { return p == self } // this peer is the closest one
 		m := api.Metric{Name: "ping", Peer: r.pids[c.Excluded], Valid: true}
 		m.SetTTL(-time.Second)
-		r.mon.AlertCh <- &api.Alert{Metric: m, TriggeredAt: time.Now()}
+		select {
+		case r.mon.AlertCh <- &api.Alert{Metric: m, TriggeredAt: time.Now()}:
+		default:
+			r.t.Fatal("harness: alert channel full (alert handler gone?)")
+		}
 		synctest.Wait()
 		r.cons.Trusted = nil
 	default:
@@ -411,14 +421,48 @@ func (r *rig) run(c Case) Obs {
 // evaluate runs, judges and reports one case; returns the observation.
 func (r *rig) evaluate(sec string, c Case) Obs {
 	o := r.run(c)
-	report(sec, c, o)
+	r.report(sec, c, o)
 	return o
 }
 
-func report(sec string, c Case, o Obs) {
-	s := R.Sec(sec)
+// evaluation records are buffered per goroutine-local batch and flushed under
+// one lock, so that parallel units do not contend on the Run's mutex.
+type evalRec struct {
+	sec, sig, outc, outc2 string
+	nt                    bool
+}
+
+var (
+	flushMu sync.Mutex
+)
+
+func flushRecs(recs []evalRec) {
+	for _, e := range recs {
+		s := R.Sec(e.sec)
+		R.Eval(s, e.sig, e.nt)
+		R.Outcome(s, e.outc)
+		if e.outc2 != "" {
+			R.Outcome(s, e.outc2)
+		}
+	}
+}
+
+func (r *rig) record(e evalRec) {
+	r.buf = append(r.buf, e)
+	if len(r.buf) >= 8192 {
+		r.flush()
+	}
+}
+
+func (r *rig) flush() {
+	flushMu.Lock()
+	flushRecs(r.buf)
+	flushMu.Unlock()
+	r.buf = r.buf[:0]
+}
+
+func (r *rig) report(sec string, c Case, o Obs) {
 	sig, nt := class(c, o)
-	R.Eval(s, sig, nt)
 	outc := "ok"
 	if o.Failed {
 		outc = "fail"
@@ -432,7 +476,7 @@ func report(sec string, c Case, o Obs) {
 	default:
 		outc = fmt.Sprintf("invalid(%d,%d):%s", mn, mx, outc)
 	}
-	R.Outcome(s, outc)
+	rec := evalRec{sec: sec, sig: sig, outc: outc, nt: nt}
 	for _, v := range judge(c, o) {
 		key := fmt.Sprintf("C03|%s|%s|%s", c.Entry, c.Alloc, v.clause)
 		R.Violation(key, map[string]interface{}{"case": c, "case_text": c.String(), "observed": o, "why": v.msg,
@@ -446,17 +490,19 @@ func report(sec string, c Case, o Obs) {
 				nh++
 			}
 		}
-		sort.Ints(o.Stored)
-		kept := fmt.Sprint(o.Stored) == fmt.Sprint(c.Cur)
+		st := append([]int{}, o.Stored...)
+		sort.Ints(st)
+		kept := fmt.Sprint(st) == fmt.Sprint(c.Cur)
 		switch {
 		case !kept:
-			R.Outcome(s, "shortcut:allocations-changed")
+			rec.outc2 = "shortcut:allocations-changed"
 		case nh < mn:
-			R.Outcome(s, "shortcut:kept-with-fewer-than-min-healthy")
+			rec.outc2 = "shortcut:kept-with-fewer-than-min-healthy"
 		default:
-			R.Outcome(s, "shortcut:kept")
+			rec.outc2 = "shortcut:kept"
 		}
 	}
+	r.record(rec)
 }
 
 // tieFree says whether the property determines the result uniquely enough to
